@@ -3030,11 +3030,20 @@ impl<'a, 'ast> Typecheck<'a, 'ast> {
                             2 => (
                                 Some(match args[0].value {
                                     Expr::Ident(ref id) => id.name.clone(),
-                                    _ => unreachable!(),
+                                    _ => {
+                                        return Some(Err(TypeError::Message(
+                                            "`convert_effect!` expects the name of the effect as its first argument"
+                                                .to_string(),
+                                        )));
+                                    }
                                 }),
                                 self.infer_expr(&mut args[1]).concrete,
                             ),
-                            _ => unreachable!(),
+                            _ => {
+                                return Some(Err(TypeError::Message(
+                                    "`convert_effect!` expects one or two arguments".to_string(),
+                                )));
+                            }
                         };
 
                         let unaliased = self.remove_aliases(typ.clone());
@@ -3078,6 +3087,11 @@ impl<'a, 'ast> Typecheck<'a, 'ast> {
                         )
                     }
                     "convert_variant!" => {
+                        if args.is_empty() {
+                            return Some(Err(TypeError::Message(
+                                "`convert_variant!` expects one argument".to_string(),
+                            )));
+                        }
                         let typ = self.infer_expr(&mut args[0]).concrete;
 
                         let unaliased = self.remove_aliases(typ);
